@@ -18,7 +18,8 @@ use serde_json::{json, Value};
 const FLAVOR: &str = if cfg!(feature = "full") { "default-features" } else { "no-default-features" };
 
 // alphabets (symbols may be several characters)
-const A_WRAP: &[&str] = &[" ", "a", "bc", "-", "\n", "é", "你", "d-e"];
+/// incl. a tab: an ASCII control character of width 0 (width 1 without unicode-width), a break opportunity for the Unicode separator only
+const A_WRAP: &[&str] = &[" ", "a", "bc", "-", "\n", "é", "你", "d-e", "\t"];
 /// broad alphabet: every kind of character the properties quantify over, incl. characters whose UTF-8 encoding ends
 /// in 0xAD (中), non-space whitespace (tab, NBSP, U+3000), zero-width and combining characters, CR, and CSI/OSC
 /// sequences with final bytes at both ends of the @..~ range
@@ -110,9 +111,27 @@ impl Ctx {
         F: Fn(&TextCase) -> Outcome + Sync,
     {
         self.text_grid(name, clause, alphabet, len, grid.clone(), widths.clone(), &check);
-        // the broad-alphabet and random passes also run every option combination with the CRLF line ending (the alphabet has "\r\n", a lone "\r" and "\n")
-        let mut both = grid.clone();
-        both.extend(grid.iter().cloned().map(|mut o| { o.crlf = true; o }));
+        // the broad-alphabet and random passes run every (algorithm, separator, splitter, break_words) combination of the grid with
+        // EVERY indent pair (multi-byte, zero-width, ANSI-coloured, wider than the width, ...) and with both line endings
+        // (the alphabet has "\r\n", a lone "\r" and "\n")
+        let mut both: Vec<Opts> = Vec::new();
+        let mut seen: Vec<(Algo, Sep, Spl, bool)> = Vec::new();
+        for o in grid.iter() {
+            let key = (o.algo, o.sep, o.spl, o.break_words);
+            if seen.contains(&key) {
+                continue;
+            }
+            seen.push(key);
+            for &(i, s2) in INDENT_PAIRS {
+                for crlf in [false, true] {
+                    let mut o2 = o.clone();
+                    o2.initial = i;
+                    o2.subsequent = s2;
+                    o2.crlf = crlf;
+                    both.push(o2);
+                }
+            }
+        }
         self.text_grid(&format!("{}.big_alphabet", name), &format!("{} (broad alphabet, LF and CRLF line ending)", clause), A_BIG, big_len, both.clone(), widths, &check);
         self.text_random(&format!("{}.random", name), &format!("{} (long random texts, sampled, LF and CRLF line ending)", clause), A_BIG, 40, nrandom, both, &check);
     }
@@ -262,12 +281,27 @@ fn frag_random(ctx: &mut Ctx, name: &str, clause: &str, n: u64, maxlen: u64, wei
     ctx.reports.push(r);
 }
 
+/// paragraphs of 6..8 words (many lines at narrow widths; widest line first / last / in the middle; wide characters)
+const LONG_PARAGRAPHS: &[&[&str]] = &[
+    &["a", "bb", "ccc", "dddd", "eeeee", "ffffff"],
+    &["ffffff", "eeeee", "dddd", "ccc", "bb", "a"],
+    &["a", "bb", "a", "bb", "ccc", "a", "dddd", "a"],
+    &["你好", "a", "bb", "好", "ccc", "dddd", "é", "你好你好"],
+    &["aa", "aa", "aa", "aa", "aa", "aa", "aa", "aa"],
+    &["a", "a", "a", "a", "a", "a", "bbbbbbb"],
+];
+
 fn refill_cases(ctx: &mut Ctx, name: &str, clause: &str, maxwords: u32, check: impl Fn(&RefillCase) -> Outcome + Sync) {
+    refill_cases_from(ctx, name, clause, maxwords, false, &check);
+    refill_cases_from(ctx, &format!("{}.long", name), &format!("{} (paragraphs of 6..8 words)", clause), 0, true, &check);
+}
+
+fn refill_cases_from(ctx: &mut Ctx, name: &str, clause: &str, maxwords: u32, long: bool, check: &(impl Fn(&RefillCase) -> Outcome + Sync)) {
     let indents: &[(&'static str, &'static str)] = &[("", ""), ("> ", "> "), ("* ", "  "), ("- ", "    "), ("#", ""), ("+ ", "+ "), ("// ", "/+*#"), (" ", "> - ")];
     let widths = [1usize, 3, 5, 8, 12];
-    let ns = count_strings(VOCAB.len() as u64, maxwords) - 1;
+    let ns = if long { LONG_PARAGRAPHS.len() as u64 } else { count_strings(VOCAB.len() as u64, maxwords) - 1 };
     let n = ns * indents.len() as u64 * 25 * 2 * 2 * 2 * 2 * (if cfg!(feature = "full") { 2 } else { 1 });
-    let scope = format!("[{}] every paragraph of 1..={} words from {:?} x indent pairs {:?} x widths {:?} (both) x algorithms x break_words off / on-without-forced-breaks x LF/CRLF (both) x trailing ending", FLAVOR, maxwords, VOCAB, indents, widths);
+    let scope = format!("[{}] {} x indent pairs {:?} x widths {:?} (both) x algorithms x break_words off / on-without-forced-breaks x LF/CRLF (both) x trailing ending", FLAVOR, if long { format!("the paragraphs {:?}", LONG_PARAGRAPHS) } else { format!("every paragraph of 1..={} words from {:?}", maxwords, VOCAB) }, indents, widths);
     let r = run_indexed(name, clause, &scope, n, true,
         |mut i| {
             let na = if cfg!(feature = "full") { 2 } else { 1 };
@@ -303,6 +337,9 @@ fn refill_cases(ctx: &mut Ctx, name: &str, clause: &str, maxwords: u32, check: i
             for _ in 0..len {
                 words.push(VOCAB[(idx % k) as usize]);
                 idx /= k;
+            }
+            if long {
+                words = LONG_PARAGRAPHS[(i % LONG_PARAGRAPHS.len() as u64) as usize].to_vec();
             }
             let o = Opts { width: w1, algo, sep: Sep::Ascii, spl: Spl::None, break_words: bw, initial: ind.0, subsequent: ind.1, crlf };
             if bw {
@@ -568,7 +605,7 @@ fn replay(path: &str) -> i32 {
         return 4;
     }
     let r = std::panic::catch_unwind(|| -> Outcome {
-        let base = contract.split(".random").next().unwrap_or(contract).trim_end_matches(".big_alphabet").trim_end_matches(".crlf");
+        let base = contract.split(".random").next().unwrap_or(contract).trim_end_matches(".big_alphabet").trim_end_matches(".crlf").trim_end_matches(".long");
         match base {
             "C01.wrap.slices" => props_wrap::c01_slices(&TextCase::from_json(case)),
             "C02.wrap.first_fit_fits" => props_wrap::c02_fits(&TextCase::from_json(case)),
